@@ -10,7 +10,9 @@ class Where(Operation):
         self.variables = (a, b)
         # own copy: the caller may re-use its condition array before back-propagation
         self.condition = np.array(condition, dtype=bool, copy=True)
-        return np.where(condition, a.data, b.data)
+        # (use the array: a tensor-valued `condition` would send `np.where`
+        # back to `mygrad.where`, recursively)
+        return np.where(self.condition, a.data, b.data)
 
     def backward_var(self, grad, index, **kwargs):
         condition = self.condition if index == 0 else ~self.condition
